@@ -189,3 +189,22 @@ def canon(hist: list) -> str:
     """Canonical state key. The file layout depends on the creation order of sets and objects, so the canonical form
     is the op list itself (handles are positional, hence equal op lists = equal futures)."""
     return hashlib.sha256(json.dumps(to_spec(hist, complete=False)['ops'], sort_keys=True).encode()).hexdigest()[:20]
+
+
+def free_channels(hist: list) -> list:
+    """Names of the channels not yet taken by a frame, in creation order (part of the canonical state: it decides what
+    the next FR event and the completion suffix do)."""
+    free: list[str] = []
+    i = 0
+    for e in hist:
+        if e in ('CH', 'CHS'):
+            free.append(('Y' if i == 2 else 'X') + ('/S' if e == 'CHS' else '') + f'#{i}')
+            i += 1
+        elif e == 'FR':
+            seen = set()
+            for nm in list(free):
+                base = nm[0]
+                if base not in seen:
+                    seen.add(base)
+                    free.remove(nm)
+    return free
